@@ -16,6 +16,18 @@ CHECKS = {
         note="Value alphabet: 6 variable definitions (3 tables rotated by VERIF_SEED); at most 3 variables alive; depth bound as reported in the evidence; states are merged on a canonical form that includes the name-mangled caches.",
         technique="explicit-state BFS over operation histories of the real object (bounded depth), invariant checked in every state",
     ),
+    "C04": dict(
+        engine="E2-product", category="exploration",
+        text="Exhaustive within bounds: every hand-written database of <= 2 points (<= 4 unconstrained) over the per-point alphabet (objective missing / values / tie / NaN; scalar and 2-component inequality missing / satisfied / exactly on the tolerance / just above / violated / NaN; equality likewise) x problem shape x tolerances x min/max x standardized or original reporting x gradient mode x scalar representation, every database of 3 (quick) / 3-4 (thorough) points over reduced alphabets, every <= 4x2 Pareto matrix over {0,1,2} x feasibility flags and every 2-objective database of <= 3 points; the reported optimum / result / Pareto front are compared with an independent transcription of the selection rule of the statement (plain Python, no gemseo code).",
+        note="Finite value alphabet (4 alphabets rotated by VERIF_SEED); any tie winner is accepted; no minimality is demanded from or against partially evaluated or NaN-constraint points (the documented violation measure is undefined there: counted as outcome classes); Pareto completeness is not demanded.",
+        technique="bounded-exhaustive enumeration of optimization databases against an independent transcription of the selection rule",
+    ),
+    "C09": dict(
+        engine="E2-product", category="exploration",
+        text="Every composition of 2 (all) / 3 (<= 2 reads, <= 1-2 writes) polynomial harness disciplines over a 4-name pool (closed under renaming, hence every sort order of the names) is built as every process kind that gives it a meaning (MDOChain, MDOParallelChain, MDOAdditiveChain, MDAChain, nestings) with dense / csr / operator Jacobians and sizes in {1,2}, and linearized through every singleton / full (thorough: every subset) request and two-request histories on the same process (subset->all, all->subset at a moved point, singleton pairs, re-execution after moving one input); every returned block is compared exactly with an independent forward accumulation of the exact partials.",
+        note="Integer value alphabet (3 tables by VERIF_SEED, 2 points) so comparisons are exact; request histories on renaming-class representatives; MDAChain on acyclic single-writer compositions; no operators under MDOAdditiveChain; thread-based kinds run free (their schedules are C13's subject).",
+        technique="bounded-exhaustive product of structural axes, exact forward-accumulation oracle",
+    ),
     "C05": dict(
         engine="E1-bfs", category="model_checking",
         text="(H) BFS over every history (depth 3/4; 2/3 for the shared-memory and HDF5 caches) of execute with fresh arrays / execute through caller arrays modified in place / defaults-only / linearize(all|subset) / reopen on harness disciplines with known ground truth and body-run counters (dense, sparse-Jacobian and self-coupled variants), for no cache, SimpleCache, MemoryFullCache (shared or not) and HDF5Cache (nested node), exact and tolerance-based; (S) every history of <= 3 operations over {execute(d), execute(1.07d), linearize(d), linearize(1.07d)} on every shipped discipline the factory builds without arguments, with a full and a simple cache, against an uncached twin running the same history.",
